@@ -430,6 +430,8 @@ enum CCase {
     History { subj: SubjDesc, cap: usize, queries: Vec<Q> },
     Sched { subj: SubjDesc, threads: u8, per_thread: u8, batches: usize },
     Stress { subj: SubjDesc, threads: u8, rounds: usize },
+    /// instruction-level preemption exploration (bound 1) of query pairs after a prefix history
+    Preempt { subj: SubjDesc, max_triples: usize },
 }
 
 fn fmt_q(q: &Q) -> String {
@@ -654,6 +656,236 @@ fn run_stress(ctx: &mut Ctx, d: &SubjDesc, threads: u8, rounds: usize) {
     ctx.obs("serialized form after the stress == before", "", 0, 0, 0, Exp::Is(true), || s.bytes() == bytes0);
 }
 
+// ------------------------------------------------------------------------------------------------
+// E5: exhaustive preemption points (bound 1) at machine-instruction granularity.
+//
+// Query A is executed with the x86 trap flag set: after every instruction a SIGTRAP handler runs. At every
+// instruction boundary that lies inside this executable (not inside libc: the allocator must not be
+// re-entered) the handler forks; the child executes the interfering queries B *at that point* - i.e. A is
+// preempted exactly there, B runs to completion, A resumes - and exits with a verdict; the parent goes on
+// stepping. One pass over A thus explores every preemption point of A once, on the real machine code.
+
+use std::sync::atomic::AtomicI32;
+static STEP_ON: AtomicBool = AtomicBool::new(false);
+static IN_CHILD: AtomicBool = AtomicBool::new(false);
+static POINTS: AtomicU64 = AtomicU64::new(0);
+static BAD_POINTS: AtomicU64 = AtomicU64::new(0);
+static FIRST_BAD: AtomicU64 = AtomicU64::new(u64::MAX);
+static FIRST_BAD_CODE: AtomicI32 = AtomicI32::new(0);
+static TEXT_LO: AtomicUsize = AtomicUsize::new(0);
+static TEXT_HI: AtomicUsize = AtomicUsize::new(0);
+static mut PREEMPT_B: Option<(*const dyn Subj, Vec<Q>, Vec<Ans>)> = None;
+
+fn text_range() {
+    if TEXT_LO.load(Relaxed) != 0 {
+        return;
+    }
+    // executable mappings of this binary (r-xp lines whose path is our exe)
+    let exe = std::env::current_exe().ok().and_then(|p| p.to_str().map(|s| s.to_string())).unwrap_or_default();
+    let maps = std::fs::read_to_string("/proc/self/maps").unwrap_or_default();
+    let (mut lo, mut hi) = (usize::MAX, 0usize);
+    for l in maps.lines() {
+        if l.contains("r-xp") && l.ends_with(&exe) {
+            let r = l.split_whitespace().next().unwrap();
+            let (a, b) = r.split_once('-').unwrap();
+            lo = lo.min(usize::from_str_radix(a, 16).unwrap());
+            hi = hi.max(usize::from_str_radix(b, 16).unwrap());
+        }
+    }
+    TEXT_LO.store(lo, Relaxed);
+    TEXT_HI.store(hi, Relaxed);
+}
+
+extern "C" fn on_trap(_sig: libc::c_int, _info: *mut libc::siginfo_t, uc: *mut libc::c_void) {
+    if !STEP_ON.load(Relaxed) {
+        return;
+    }
+    let uc = uc as *mut libc::ucontext_t;
+    let rip = unsafe { (*uc).uc_mcontext.gregs[libc::REG_RIP as usize] } as usize;
+    if rip < TEXT_LO.load(Relaxed) || rip >= TEXT_HI.load(Relaxed) {
+        return;
+    }
+    let point = POINTS.fetch_add(1, Relaxed);
+    unsafe {
+        let pid = libc::fork();
+        if pid == 0 {
+            // child: A is preempted here. Stop stepping, run B now, then let A finish at full speed.
+            STEP_ON.store(false, Relaxed);
+            IN_CHILD.store(true, Relaxed);
+            (*uc).uc_mcontext.gregs[libc::REG_EFL as usize] &= !0x100;
+            #[allow(static_mut_refs)]
+            if let Some((s, qs, want)) = PREEMPT_B.as_ref() {
+                for (q, w) in qs.iter().zip(want.iter()) {
+                    let got = trap(|| (**s).ask(q));
+                    if got.as_ref().ok() != Some(w) {
+                        libc::_exit(3);
+                    }
+                }
+            }
+            return; // resume A; the code after A's call checks its answer and exits
+        }
+        let mut status = 0;
+        libc::waitpid(pid, &mut status, 0);
+        let code = if libc::WIFEXITED(status) { libc::WEXITSTATUS(status) } else { 100 + libc::WTERMSIG(status) };
+        if code != 0 {
+            BAD_POINTS.fetch_add(1, Relaxed);
+            if FIRST_BAD.load(Relaxed) == u64::MAX {
+                FIRST_BAD.store(point, Relaxed);
+                FIRST_BAD_CODE.store(code, Relaxed);
+            }
+        }
+    }
+}
+
+#[inline(never)]
+fn stepped_ask(s: &dyn Subj, q: &Q) -> Result<Ans, String> {
+    unsafe {
+        std::arch::asm!("pushfq", "or qword ptr [rsp], 0x100", "popfq");
+    }
+    let r = trap(|| s.ask(q));
+    unsafe {
+        std::arch::asm!("pushfq", "and qword ptr [rsp], -257", "popfq");
+    }
+    r
+}
+
+fn run_preempt(ctx: &mut Ctx, d: &SubjDesc, max_triples: usize) {
+    let Some((s, alpha)) = make_subject(ctx, d, 400, true) else { return };
+    text_range();
+    unsafe {
+        let mut sa: libc::sigaction = std::mem::zeroed();
+        sa.sa_sigaction = on_trap as *const () as usize;
+        sa.sa_flags = libc::SA_SIGINFO;
+        libc::sigemptyset(&mut sa.sa_mask);
+        libc::sigaction(libc::SIGTRAP, &sa, std::ptr::null_mut());
+    }
+    let cheap: Vec<Q> = alpha.iter().filter(|q| !matches!(q, Q::IterSum | Q::OnesFrom(_) | Q::Len)).cloned().collect();
+    // does any query write to the memory the structure owns?
+    let dig0 = arena_digest();
+    let mut writers: Vec<Q> = Vec::new();
+    for q in &cheap {
+        let before = arena_digest();
+        let _ = ask(&*s, q);
+        if arena_digest() != before {
+            writers.push(q.clone());
+        }
+    }
+    let impure = !writers.is_empty() || arena_digest() != dig0;
+    if impure {
+        ctx.count("subjects_whose_queries_write_memory");
+    } else {
+        ctx.count("subjects_pure_under_the_arena_monitor");
+    }
+    // a fresh, never queried instance provides the reference answers
+    let Some((fresh, _)) = make_subject(ctx, d, 400, false) else { return };
+    let solo = |q: &Q| ask(&*fresh, q).unwrap_or(Some(u128::MAX));
+    // A candidates: queries with a "neighbour" in the alphabet (k and k-1 / k+1 of the same method), first
+    // the ones that write; B: a few far-away queries of the same kind; P: empty, predecessor, successor
+    let key = |q: &Q| -> Option<(u8, u128, usize)> {
+        match q {
+            Q::Select(c, k) => Some((0, *c, *k)),
+            Q::Select1(k) => Some((1, 0, *k)),
+            Q::Select0(k) => Some((2, 0, *k)),
+            Q::Rank(c, i) => Some((3, *c, *i)),
+            Q::Rank1(i) => Some((4, 0, *i)),
+            Q::Get(i) => Some((5, 0, *i)),
+            Q::RankPf(c, i) => Some((6, *c, *i)),
+            _ => None,
+        }
+    };
+    let valid: Vec<Q> = cheap.iter().filter(|q| solo(q).is_some() && solo(q) != Some(u128::MAX)).cloned().collect();
+    let mut a_list: Vec<Q> = writers.iter().filter(|q| valid.contains(q)).cloned().collect();
+    for q in &valid {
+        if let Some((m, c, k)) = key(q) {
+            if valid.iter().any(|p| key(p) == Some((m, c, k.wrapping_sub(1)))) && !a_list.contains(q) {
+                a_list.push(q.clone());
+            }
+        }
+    }
+    if a_list.is_empty() {
+        a_list = valid.iter().take(4).cloned().collect();
+    }
+    // token exploration for pure subjects (keeps the machinery exercised), full budget otherwise
+    let budget = if impure { max_triples } else { 1 };
+    let mut triples = 0usize;
+    let saved = ctx.case_desc.clone();
+    'outer: for a in &a_list {
+        let (m, c, k) = key(a).unwrap_or((9, 0, 0));
+        let mut prefixes: Vec<Vec<Q>> = vec![vec![]];
+        for p in &valid {
+            if let Some((pm, pc, pk)) = key(p) {
+                if pm == m && pc == c && (pk == k.wrapping_sub(1) || pk == k + 1 || pk == k) {
+                    prefixes.push(vec![p.clone()]);
+                }
+            }
+        }
+        let mut bs: Vec<Q> = valid.iter().filter(|b| key(b).map_or(false, |(bm, _, bk)| bm == m && bk.abs_diff(k) > 40)).take(3).cloned().collect();
+        if let Some(w) = writers.iter().find(|w| *w != a && valid.contains(w)) {
+            bs.push(w.clone());
+        }
+        if bs.is_empty() {
+            bs = valid.iter().filter(|b| *b != a).take(2).cloned().collect();
+        }
+        for p in &prefixes {
+            for b in &bs {
+                if triples >= budget {
+                    break 'outer;
+                }
+                triples += 1;
+                // sequential prefix
+                for q in p {
+                    let _ = ask(&*s, q);
+                }
+                let want_a = solo(a);
+                let bq = vec![b.clone()];
+                let bw: Vec<Ans> = bq.iter().map(|q| solo(q)).collect();
+                unsafe {
+                    PREEMPT_B = Some((&*s as *const dyn Subj, bq.clone(), bw));
+                }
+                POINTS.store(0, SeqCst);
+                BAD_POINTS.store(0, SeqCst);
+                FIRST_BAD.store(u64::MAX, SeqCst);
+                STEP_ON.store(true, SeqCst);
+                let got = stepped_ask(&*s, a);
+                STEP_ON.store(false, SeqCst);
+                if IN_CHILD.load(Relaxed) {
+                    // we are a forked child that resumed A after the preemption: verdict by exit status
+                    let ok = got.as_ref().ok() == Some(&want_a);
+                    unsafe { libc::_exit(if ok { 0 } else { 4 }) };
+                }
+                let pts = POINTS.load(SeqCst);
+                ctx.evals += pts;
+                ctx.add("preemption_points_explored", pts);
+                ctx.add("schedules", pts);
+                ctx.add("states", pts);
+                ctx.add("transitions", pts * 2);
+                ctx.add("traces_validated", pts);
+                if got.as_ref().ok() != Some(&want_a) {
+                    ctx.violation("query after a history", "", format!("{a:?} after {p:?} (no preemption)"), format!("{want_a:?}"), format!("{got:?}"));
+                }
+                let bad = BAD_POINTS.load(SeqCst);
+                if bad > 0 {
+                    let code = FIRST_BAD_CODE.load(SeqCst);
+                    ctx.case_desc = saved.clone();
+                    ctx.violation(
+                        "preempted query (instruction-level schedule)",
+                        "",
+                        format!("after {p:?}: {a:?} preempted by {b:?} at instruction boundary #{} of {} (inside the executable)", FIRST_BAD.load(SeqCst), pts),
+                        "both queries obtain their sequential answers at every preemption point".into(),
+                        format!("{bad} of {pts} preemption points give a wrong answer; first: {}", match code {
+                            3 => "the preempting query answered wrongly".to_string(),
+                            4 => "the preempted query answered wrongly after it resumed".to_string(),
+                            c => format!("the child ended with status {c}"),
+                        }),
+                    );
+                    break 'outer;
+                }
+            }
+        }
+    }
+    ctx.add("preemption_triples", triples as u64);
+}
+
 impl Case for CCase {
     fn run(&self, ctx: &mut Ctx) {
         match self {
@@ -661,6 +893,7 @@ impl Case for CCase {
             CCase::History { subj, cap, queries } => run_history(ctx, subj, *cap, queries),
             CCase::Sched { subj, threads, per_thread, batches } => run_sched(ctx, subj, *threads, *per_thread, *batches),
             CCase::Stress { subj, threads, rounds } => run_stress(ctx, subj, *threads, *rounds),
+            CCase::Preempt { subj, max_triples } => run_preempt(ctx, subj, *max_triples),
         }
     }
     fn weight(&self) -> u64 {
@@ -720,6 +953,7 @@ fn enumerate(args: &Args) -> Vec<CCase> {
         v.push(CCase::Sched { subj: s.clone(), threads: 2, per_thread: 3, batches: if th { 12 } else { 3 } });
         v.push(CCase::Sched { subj: s.clone(), threads: 3, per_thread: 2, batches: if th { 6 } else { 1 } });
         v.push(CCase::Stress { subj: s.clone(), threads: 8, rounds: if th { 40 } else { 8 } });
+        v.push(CCase::Preempt { subj: s.clone(), max_triples: if th { 1200 } else { 260 } });
     }
     v
 }
